@@ -158,7 +158,7 @@ def gen_music(rng, max_notes=8, channels=(0,), grid=None, horizon=400, pitches=N
     # "strummed chord" shape: several pitches starting within a few ticks of each other with almost equal, almost valid
     # lengths, so that note ends lie 1-3 ticks apart - the shape in which numeric coincidences between notes (ends that
     # swap, collide or tie under a correction) are common
-    if n >= 2 and rng.random() < 0.2:
+    if n >= 2 and rng.random() < 0.28:
         t0 = rng.randrange(0, max(1, horizon // 2))
         base_len = rng.choice(NOTE_VALUES)
         chord = sorted({(pitches[0] - 12 + rng.randrange(0, 30)) for _ in range(n)})
@@ -166,7 +166,9 @@ def gen_music(rng, max_notes=8, channels=(0,), grid=None, horizon=400, pitches=N
         for p_ in chord:
             if not 21 <= p_ <= 108:
                 continue
-            notes.append([ch, p_, t0 + rng.randrange(0, 5), max(1, base_len + rng.randrange(-3, 4)), rng.randrange(1, 128)])
+            tight = rng.random() < 0.5
+            notes.append([ch, p_, t0 + rng.randrange(0, 3 if tight else 5),
+                          max(1, base_len + (rng.randrange(-2, 3) if tight else rng.randrange(-3, 4))), rng.randrange(1, 128)])
         n = 0
     for _ in range(n):
         ch = rng.choice(channels)
